@@ -13,6 +13,7 @@ fn pat_byte(cls: &str, key: u64, i: u64) -> u8 {
         "pat" => ((key + 131 * i + i / 251) % 256) as u8,
         "ascii" => (32 + (key + 7 * i) % 90) as u8,
         "secret" => (160 + 2 * key + (i % 2)) as u8,
+        "text" => [239u8, 187, 191, 60, 112, 62, 13, 10, 104, 105, 10, 13, 32, 9, 0, 228, 13, 10, 13, 10, 45, 45, 10][(i % 23) as usize],
         _ => 0,
     }
 }
